@@ -841,30 +841,36 @@ func (ds *Dataset) GetChangesWatermark() (uint64, error) {
 
 	err := ds.store.database.View(func(btxn *badger.Txn) error {
 		//txn := InstrumentedTxn(btxn, ds.store)
-		searchBuffer := make([]byte, 7)
+		// seek to the end of this dataset's own change log: its 6 byte prefix followed by the highest possible key
+		searchBuffer := make([]byte, 22)
 		txn := btxn
 		binary.BigEndian.PutUint16(searchBuffer, DatasetEntityChangeLog)
 		binary.BigEndian.PutUint32(searchBuffer[2:], ds.InternalID)
-		searchBuffer[6] = 0xFF
+		for i := 6; i < len(searchBuffer); i++ {
+			searchBuffer[i] = 0xFF
+		}
 
 		iteratorOptions := badger.DefaultIteratorOptions
 		iteratorOptions.Reverse = true
 		iteratorOptions.PrefetchValues = false
-		iteratorOptions.Prefix = searchBuffer
+		iteratorOptions.Prefix = searchBuffer[:6]
 		changesIterator := txn.NewIterator(iteratorOptions)
 		defer changesIterator.Close()
 
-		changesIterator.Rewind()
-		item := changesIterator.Item()
-		k := item.Key()
+		changesIterator.Seek(searchBuffer)
+		if !changesIterator.ValidForPrefix(searchBuffer[:6]) {
+			// no changes in this dataset yet: the next change to look for is the first one
+			return nil
+		}
+		k := changesIterator.Item().Key()
 
-		waterMark = binary.BigEndian.Uint64(k[6:14])
+		// need to add one to point to next change in searches.
+		waterMark = binary.BigEndian.Uint64(k[6:14]) + 1
 
 		return nil
 	})
 
-	// need to add one to point to next change in searches.
-	return waterMark + 1, err
+	return waterMark, err
 }
 
 /*
